@@ -101,4 +101,37 @@ CLAIMS.update({
         note=COMMON_NOTE),
 })
 
+CLAIMS.update({
+    'C15': dict(
+        text="The helpers are client loops over the API; modelled as the same loops over the L1 model. Proved in Lean: the cursor loop "
+             "from OffsetOldest returns exactly the live messages once and ends at NextOffset for any maxCount >= 1; FindByOffset selects "
+             "exactly the live offsets below the bound; FindByAge selects a prefix with no message newer than the time; loops terminate and "
+             "leave the content untouched. Correspondence: bounds below/inside/above the live range on multi-segment states with holes; the "
+             "Find* selections and the state after Trim*Multi are checked against the L0 relations (prefix, bound holds, not more than "
+             "required, Stat size below target via a following Stat).",
+        note=COMMON_NOTE + "FindByCount/FindBySize/Trim bounds theorems (need stat_spec and deleteMulti) in progress; until then those "
+             "clauses rest on the correspondence."),
+    'C16': dict(
+        text="Proved in Lean: FindUpdates selects exactly the scanned messages having a later scanned message with the same key; FindDeletes "
+             "exactly the value-less first-of-key scanned messages; content untouched by the scans. Correspondence: small key sets with "
+             "tombstones and nil key, all cut-offs, repeated/alternating compactions; latest-value map before/after, removed-only clauses, "
+             "at-most-one-per-key under monotone times evaluated on the implementation's results.",
+        note=COMMON_NOTE + "art.Tree keyed by message key is modelled as an association list (trusted). compact*_latest theorems in progress."),
+    'C19': dict(
+        text="Proved in Lean on the lock-table model (flock semantics trusted): over all open/close sequences incl. failing opens never two "
+             "writers nor a writer with readers; opens fail while a writer is open; readers admit readers only; lock released by Close and by "
+             "a failed Open (hypothesis = regenerated structural fact, discharged by decide). On L1: a read-only handle rejects "
+             "Publish/Delete with ErrReadonly and changes nothing; both modes open the same content; reads never change records. "
+             "Correspondence: random sequences over 3 handles in both modes with failing opens (corrupt index + Check), publishes, deletes and "
+             "a digest of all *.log files after every step; plus API histories with read-only sessions answering all queries.",
+        note=COMMON_NOTE + "flock(2) between open file descriptions is the parameter of the model (trusted)."),
+    'C20': dict(
+        text="Proved in Lean: the backup of any reachable state is a clean directory with the same content and opens (any options) to a log "
+             "with the invariant and the same live messages and NextOffset; publish-only steps only extend the content. Correspondence: "
+             "Backup through both entry points into fresh and reused directories with publish-only steps in between; real Check + open + "
+             "full observation of the backup; source listing unchanged.",
+        note=COMMON_NOTE + "The mtime half of the skip rule is runtime behaviour and not modelled (size-equal files are equal when only "
+             "appends happened)."),
+})
+
 NOT_APPLICABLE = []
